@@ -329,7 +329,7 @@ def m_join(it, recv, args, e, mod, discard):
 # ---------------------------------------------------------------------------------------------
 # hash containers
 def set_contains(it, s, x):
-    return z_or(*[it.sym_eq(x, y) for y in s.items])
+    return z_or(*[z_and(g, it.sym_eq(x, y)) for g, y in s.items])
 
 
 def map_find(it, m, k):
@@ -357,11 +357,11 @@ def m_insert(it, recv, args, e, mod, discard):
     if isinstance(r, I.SetV):
         x = it.deref(args[0])
         if discard:
-            r.items.append(x)
+            r.items.append((True, x))
             return UNIT
         present = it.truth(set_contains(it, r, x))
         if not present:
-            r.items.append(x)
+            r.items.append((True, x))
         return not present
     if isinstance(r, I.MapV):
         return map_insert(it, r, it.deref(args[0]), args[1])
